@@ -479,7 +479,7 @@ class LongPositionVector:
             | ((self.latitude & 0xFFFFFFFF) << 32 * 2)
             | ((self.longitude & 0xFFFFFFFF) << 32)
             | (self.pai << 31)
-            | (self.s << 16)
+            | ((self.s & 0x7FFF) << 16)
             | self.h
         ).to_bytes(24, byteorder="big")
 
@@ -498,7 +498,7 @@ class LongPositionVector:
             | ((self.latitude & 0xFFFFFFFF) << 32 * 2)
             | ((self.longitude & 0xFFFFFFFF) << 32)
             | (int(self.pai) << 31)
-            | (self.s << 16)
+            | ((self.s & 0x7FFF) << 16)
             | self.h
         )
 
@@ -525,6 +525,8 @@ class LongPositionVector:
             longitude -= 0x100000000
         pai = bool((data_as_int >> 31) & 0x1)
         s = (data_as_int >> 16) & 0x7FFF
+        if s >= 0x4000:
+            s -= 0x8000
         h = data_as_int & 0xFFFF
         return cls(
             gn_addr=gn_addr,
